@@ -2,3 +2,7 @@ import DdnnfVerif.Model.Basic
 import DdnnfVerif.Model.Query
 import DdnnfVerif.Model.WFCheck
 import DdnnfVerif.Model.Dispatch
+import DdnnfVerif.Model.Features
+import DdnnfVerif.Proofs.Table
+import DdnnfVerif.Proofs.Semantics
+import DdnnfVerif.Proofs.Keystone
